@@ -81,7 +81,7 @@ def gen_attr_value(rng, kind):
     if kind == "AttrGraph":
         return rng.choice(["Add", "Mul"])
     if kind == "AttrFloat32":
-        return rng.choice([0.5, -1.25, 3.0, 1e-5])
+        return rng.choice([0.5, -1.25, 3.0, 1e-5, 0.0, -0.0])      # 0.0 and -0.0: equal as Python objects, different attributes
     if kind == "AttrInt64":
         return rng.choice([0, 1, -3, 2**40])
     if kind == "AttrString":
@@ -383,7 +383,13 @@ def run_case(case):
             for j, o in enumerate(outs):
                 w = wrap(o)
                 if pos == "feeds-inline" and j == 0:
-                    (w,) = inline(inline_model())(w).values()
+                    # an UNTYPED output (no type hook / no entry) is passed on as it is: the inlined model's results are typed by the
+                    # model's own declaration, whatever is known about the arguments
+                    with warnings.catch_warnings():
+                        warnings.simplefilter("ignore")
+                        (w,) = inline(inline_model())(o if o.type is None else w).values()
+                    rec["inline_result_type"] = [o.type is None, L.tspec_of_spox_type(w.type)]
+                    w = wrap(w)
                 results[f"out{j}"] = op.identity(w)
             second = None
             if "second" in case:
@@ -537,6 +543,10 @@ def check_case(run, rec, coq_jobs, st):
         run.fail("impl", key, f"constructing the user-defined operator raises {con['raised']} although no hook raises",
                  dict(detail, observed=con))
         return
+    if "inline_result_type" in rec and _freeze(rec["inline_result_type"][1]) != _freeze(T23):
+        run.fail("impl", "C18/feeds-inline/result-type", "the result of an inlined model fed by the operator's "
+                 f"{'untyped ' if rec['inline_result_type'][0] else ''}output does not carry the model's declared output type",
+                 dict(detail, expected=T23, observed=rec["inline_result_type"]))
     tmap, vmap = dict(types), dict(values)
     exp = []
     for key in keys:
